@@ -325,6 +325,7 @@ type outDelivery struct {
 }
 
 type brokerDomain struct {
+	longSettle bool // see op `longsettle`
 	mu          sync.Mutex
 	nodes       []*bnode
 	clients     map[string]*bclient
@@ -447,7 +448,13 @@ func (b *brokerDomain) settle() {
 	quiet := time.Duration(b.settleMs) * time.Millisecond
 	last := atomic.LoadInt64(&activity)
 	since := time.Now()
-	deadline := time.Now().Add(5 * time.Second)
+	// a single client operation settles within 5 s; a burst of thousands of publishes behind a stalled recipient
+	// legitimately takes longer (longer still on a loaded machine)
+	limit := 5 * time.Second
+	if b.longSettle {
+		limit = 40 * time.Second
+	}
+	deadline := time.Now().Add(limit)
 	for time.Now().Before(deadline) {
 		time.Sleep(2 * time.Millisecond)
 		cur := atomic.LoadInt64(&activity)
@@ -1120,6 +1127,10 @@ func (b *brokerDomain) step(f []string) string {
 			v = 1
 		}
 		atomic.StoreInt32(&c.srv.muted, v)
+		return "ok"
+	case f[0] == "longsettle" && len(f) == 2:
+		// longsettle <0|1>: from now on an operation may take up to 40 s to settle (bursts behind a stalled recipient)
+		b.longSettle = f[1] == "1"
 		return "ok"
 	case f[0] == "stall" && len(f) == 3:
 		// stall <c> <ms>: the next write of the broker to this connection blocks for <ms> of real time
